@@ -126,7 +126,7 @@ def check_phase(ctx):
     g0 = ctx.prog.func(SM, "JokerSamples.get_t0", R)
     rr = [s for s in A.walk_local(g0) if isinstance(s, ast.Return)]
     ok0 = len(rr) == 1 and isinstance(rr[0].value, ast.Call) and canon(rr[0].value.func) == "self.get_time_with_phase" and canon(A.get_arg(rr[0].value, None, "t_ref")) == "t_ref" \
-        and canon(A.get_arg(rr[0].value, 0, "phase")) in (canon(parse("0 * u.rad")), canon(parse("0.0 * u.rad")), canon(parse("0 * u.radian")))
+        and canon(A.get_arg(rr[0].value, 0, "phase", with_default=True)) in (canon(parse("0 * u.rad")), canon(parse("0.0 * u.rad")), canon(parse("0 * u.radian")))
     ctx.check(R, g0, "get_t0 = get_time_with_phase(phase=0)", ok0, "get_t0 returns `%s`" % (A.unparse(rr[0].value) if rr else None), key="t0")
     # the only user of the instance cache is get_orbit's template, which is fully overwritten
     m = ctx.prog.module(SM)
